@@ -163,6 +163,24 @@ theorem code_kinds_exclusive (r p : Bool) (c : Nat) :
   rw [a, b, d, e, f, g, h, i]
   cases hk : kindOfHeader r c <;> simp
 
+/-! ### `create_answer` of process.py (the meaning of the primitive `makeAnswer`), translated on this run -/
+
+/-- the answer the model writes for a message of a given kind and identifiers -/
+def answerOf (tmpl : String) (hbh e2e : Nat) : Option Out :=
+  if tmpl = "cea" then some (.cea hbh e2e) else if tmpl = "dwa" then some (.dwa hbh e2e) else if tmpl = "dpa" then some (.dpa hbh e2e) else none
+
+/-- `create_answer`, as translated from the code, picks the template of the message's command and copies BOTH identifiers
+unconditionally: it is the primitive `createAnswer` of the translation target for every message of every kind whose header
+carries that kind's command code -/
+theorem code_create_answer (ps : PS) (m : PMsg) (r : Bool) (c : Nat) (hm : ps.msg = some m) (hk : m.kind = kindOfHeader r c) :
+    BV.Gen.Kinds.copiesHbh = true ∧ BV.Gen.Kinds.copiesE2e = true ∧
+    ((BV.Gen.Kinds.createAnswerTmpl c).bind fun t => answerOf t m.hbh m.e2e) = createAnswer ps := by
+  refine ⟨by decide, by decide, ?_⟩
+  unfold createAnswer BV.Gen.Kinds.createAnswerTmpl
+  rw [hm]
+  simp only [hk, kindOfHeader]
+  by_cases h1 : c = 257 <;> by_cases h2 : c = 280 <;> by_cases h3 : c = 282 <;> cases r <;> simp_all [answerOf]
+
 /-! non-vacuity: a sound verdict function exists, and a concrete execution of the translated code opens -/
 def V0 : Verd := fun _ m => m.valid
 theorem V0_sound : Sound V0 := fun _ => ⟨fun _ => rfl, fun _ => rfl, fun _ => rfl⟩
